@@ -540,7 +540,8 @@ example : ∃ body note s1 s2 s3 s4,
 
 /-- **Empty value.**  Value tokens that do not read as a number (or range) and whose text is blank
     (`@x{ %g}`): `parse_value` pushes exactly `empty-value` (error, parse) labelled with the span of
-    that text, and returns a value located from the first token to the current offset. -/
+    that text, and returns a value located from the first token to the current offset.
+    [Component level: `C07_empty_value_component`, `C07_empty_value_component_blank`.] -/
 theorem C07_empty_value (tokens : List Tok) (s : BP α)
     (hnone : numOrRange (α := α) (s.ext.has Gen.EXT_RANGE_VALUES) tokens = none)
     (hemp : (buildText ((tokens.head?.map (·.start)).getD (curOff s)) tokens).isTextEmpty s.cs = true) :
@@ -1310,7 +1311,9 @@ example : ∃ body s1 s2 s3, Cut .tilde C07_exTimerNote [] body s1 s2 s3 ∧
     * if whitespace is there, or the block ends (`@ x`, `@`), nothing is pushed.
     (When a word/number token is at the cursor the attempt succeeds and pushes nothing:
     `C07_component_cut`.)  Partial: that `ingredient`/`cookware`/`timer` reach this attempt exactly
-    when the long form `name{…}` is absent is not lifted to the component here. -/
+    when the long form `name{…}` is absent is not lifted to the component here.
+    [Now lifted: `C07_component_declines`, `C07_invalid_single_word_name` (both directions),
+    `C07_invalid_single_word_name_then_text`.] -/
 theorem C07_invalid_single_word_name_partial (s : BP α)
     (hns : ∀ t, s.toks[s.cur]? = some t → isShortK t.kind = false) :
     compBodyShort s = (none, pushAll (singleWordWarn s) s) ∧
@@ -1489,7 +1492,9 @@ theorem C07_sound_recipe_steps (env : Env) (pre : List Tok) (doc : List (List Se
     diagnostic, is valid and does not panic.  (`env` is the environment the document was checked
     against, with the two flags off.)
     Missing: discharging `hirr` here; Props/C02's lemma files (Lemmas/ExtLaws) and this file's
-    (Lemmas/RoundtripComp) cannot be imported together because both declare `withRecover_run`. -/
+    (Lemmas/RoundtripComp) cannot be imported together because both declare `withRecover_run`.
+    [Now: the clash is resolved and `hirr` is discharged by C02's theorem in
+    `C07_sound_recipe_steps_all_extensions`.] -/
 theorem C07_sound_recipe_steps_all_extensions_partial (env : Env)
     (pre : List Tok) (doc : List (List SegX × List Tok))
     (hadv : env.ext.has Gen.EXT_ADVANCED_UNITS = false) (hinl : env.ext.has Gen.EXT_INLINE_QUANTITIES = false)
